@@ -103,7 +103,7 @@ pub fn inits(tier: Tier) -> Vec<Init> {
         max_nodes: if tier == Tier::Quick { 7 } else { 8 },
         partial: true,
     };
-    let keep = if tier == Tier::Quick { 331 } else { 211 };
+    let keep = if tier == Tier::Quick { 211 } else { 211 };
     for (i, t) in g1.all().into_iter().enumerate() {
         if t.n_nodes() <= 3 || i % keep == 0 {
             v.push(Init::Spec(t));
@@ -117,7 +117,7 @@ pub fn inits(tier: Tier) -> Vec<Init> {
         max_nodes: if tier == Tier::Quick { 7 } else { 8 },
         partial: true,
     };
-    let keep2 = if tier == Tier::Quick { 701 } else { 397 };
+    let keep2 = if tier == Tier::Quick { 449 } else { 397 };
     for (i, t) in g2.all().into_iter().enumerate() {
         if t.n_nodes() <= 3 || i % keep2 == 0 {
             v.push(Init::Spec(t));
@@ -195,18 +195,20 @@ pub fn cases(tier: Tier) -> Vec<Case> {
 
 /// Incremental exploration of all histories of one initial tree: the pruned and the un-pruned
 /// track are carried along, every history ending in a pruning operation is judged.
-pub fn run_init(init: &Init, first: usize, tier: Tier) -> CaseOut {
+pub fn run_init(init: &Init, first: &[usize], tier: Tier) -> CaseOut {
     let mut out = CaseOut::default();
     let lim = limit_for(init, tier);
     let p = init.build();
     let u = init.build();
-    fn rec(init: &Init, p: &AffTree<2>, u: &AffTree<2>, d: usize, ops: &mut Vec<Op>, lim: usize, tier: Tier, out: &mut CaseOut, first: Option<usize>) {
+    fn rec(init: &Init, p: &AffTree<2>, u: &AffTree<2>, d: usize, ops: &mut Vec<Op>, lim: usize, tier: Tier, out: &mut CaseOut, first: &[usize]) {
         if ops.len() == lim {
             return;
         }
         for (oi, op) in next_ops(d, ops, tier).into_iter().enumerate() {
-            if let Some(f) = first {
-                if oi != f {
+            // the task's prefix fixes the first operations; a history is judged by the task whose prefix it
+            // extends (the last prefix element's own history is judged by this task as well)
+            if let Some(f) = first.get(ops.len()) {
+                if oi != *f {
                     continue;
                 }
             }
@@ -229,19 +231,30 @@ pub fn run_init(init: &Init, first: usize, tier: Tier) -> CaseOut {
                         None => true,
                     };
                     if uok {
-                        if op.prunes() {
+                        // histories shorter than the prefix belong to the task with the shorter prefix
+                        if op.prunes() && judged_here(first, ops.len()) {
                             out.add("programs", 1);
                             judge(init, ops, &p2, &u2, before.as_ref(), out);
                         }
-                        rec(init, &p2, &u2, nd, ops, lim, tier, out, None);
+                        rec(init, &p2, &u2, nd, ops, lim, tier, out, first);
                     }
                 }
             }
             ops.pop();
         }
     }
-    rec(init, &p, &u, init.out_dim(), &mut vec![], lim, tier, &mut out, Some(first));
+    rec(init, &p, &u, init.out_dim(), &mut vec![], lim, tier, &mut out, first);
     out
+}
+
+/// which history lengths a task judges: prefix [a] judges everything below a; prefix [a, MAX] judges the
+/// one-step history [a] only; prefix [a, b] judges the histories of length >= 2 that start with a, b
+fn judged_here(first: &[usize], len: usize) -> bool {
+    if first.len() == 2 && first[1] == usize::MAX {
+        len == 1
+    } else {
+        len >= first.len()
+    }
 }
 
 fn judge(init: &Init, ops: &[Op], p: &AffTree<2>, u: &AffTree<2>, before_last: Option<&crate::snap::Snap>, out: &mut CaseOut) {
@@ -361,17 +374,31 @@ fn opname(op: &Op) -> &'static str {
 
 pub fn run(tier: Tier) -> Report {
     let mut rep = Report::new("C03", tier, "model_checking");
+    let t0 = std::time::Instant::now();
     let is = inits(tier);
+    if std::env::var("VERIF_TIMING").is_ok() { eprintln!("inits: {:.1}s", t0.elapsed().as_secs_f64()); }
     rep.set("initial_trees", is.len() as u64);
     // one task per (initial tree, first operation); the long histories first
-    let mut tasks: Vec<(Init, usize)> = vec![];
+    let mut tasks: Vec<(Init, Vec<usize>)> = vec![];
     for init in &is {
-        for k in 0..next_ops(init.out_dim(), &[], tier).len() {
-            tasks.push((init.clone(), k));
+        let ops0 = next_ops(init.out_dim(), &[], tier);
+        for (k, op0) in ops0.iter().enumerate() {
+            if limit_for(init, tier) >= 3 {
+                // long histories: one task per pair of first operations, plus one for the one-step history
+                tasks.push((init.clone(), vec![k, usize::MAX]));
+                let d1 = op0.out_dim(init.out_dim());
+                for k2 in 0..next_ops(d1, &[op0.clone()], tier).len() {
+                    tasks.push((init.clone(), vec![k, k2]));
+                }
+            } else {
+                tasks.push((init.clone(), vec![k]));
+            }
         }
     }
     tasks.sort_by_key(|(i, _)| std::cmp::Reverse(limit_for(i, tier)));
-    let total = par_cases(&tasks, |_, (init, k)| run_init(init, *k, tier));
+    if std::env::var("VERIF_TIMING").is_ok() { eprintln!("tasks: {:.1}s ({})", t0.elapsed().as_secs_f64(), tasks.len()); }
+    let total = par_cases(&tasks, |_, (init, k)| run_init(init, k, tier));
+    if std::env::var("VERIF_TIMING").is_ok() { eprintln!("explored: {:.1}s", t0.elapsed().as_secs_f64()); }
     rep.absorb(total);
     rep.set("bound", match tier {
         Tier::Quick => "histories of <= 3 operations (<= 2 from generator trees) over {infeasible_elimination, compose pruned/unpruned with 11-13 right operands, apply_func with 4 maps} ending in a pruning operation, from 1-D/2-D generator trees (<= 7 nodes, parallel/concurrent predicates, partial) and from_aff/from_poly roots",
